@@ -146,6 +146,13 @@ class MCNP_Lexer(Lexer):
         """
         A ``c`` style comment.
         """
+        if t.index > 0 and self.text[t.index - 1] in ":,":
+            # the particle designator of a classifier (IMP:c, F4:n,c), not a comment:
+            # give the rest of the line back to the lexer
+            self.index = t.index + 1
+            t.value = t.value[0]
+            t.type = "PARTICLE"
+            return t
         self.lineno += t.value.count("\n")
         start = self.find_column(self.text, t)
         if start > 5:
@@ -420,9 +427,13 @@ class ParticleLexer(MCNP_Lexer):
     @_(r"[+\-]?[0-9]*\.?[0-9]*E?[+\-]?[0-9]*[ijrml]+[a-z\./]*", r"[a-z]+[a-z\./]*")
     def TEXT(self, t):
         t = super().TEXT(t)
-        if t.value.lower() in self._KEYWORDS:
+        word = t.value.lower()
+        # u, x, y, z are keywords and particle designators: directly after the ":" or "," of a
+        # classifier only a particle can stand
+        after_colon = t.index > 0 and self.text[t.index - 1] in ":,"
+        if word in self._KEYWORDS and not (after_colon and word in self._PARTICLES):
             t.type = "KEYWORD"
-        elif t.value.lower() in self._PARTICLES:
+        elif word in self._PARTICLES:
             t.type = "PARTICLE"
         return t
 
